@@ -23,7 +23,6 @@ type segmentTimelineGenerator struct {
 	_nrTracks      uint32
 	_started       bool
 	_shifted       bool
-	_published     bool     // Segment times have been generated
 	manifest       *mpd.MPD // The published MPD with segment times. Generated, or found in dstDir at start
 }
 
@@ -39,7 +38,8 @@ func newSegmentTimelineGenerator(dstDir string, windowSize uint32) *segmentTimel
 }
 
 // findPublishedMPD looks for an MPD with segment times in dstDir, published before a restart of the receiver.
-// The segments that it lists must be kept in storage until a new MPD has been generated.
+// The segments that it lists must be kept in storage until a new MPD has been generated,
+// and the latest number of a new MPD must not be lower.
 func (sg *segmentTimelineGenerator) findPublishedMPD() {
 	manifest, err := mpd.ReadFromFile(filepath.Join(sg.dstDir, timelineNrMPD))
 	if err != nil || len(manifest.Periods) != 1 {
@@ -97,8 +97,11 @@ func (s *segmentTimelineGenerator) addSegmentData(log *slog.Logger, item recSegD
 	switch {
 	case !ok:
 		return false, nil
-	case !s._published || lastNr > s.latestSeqNr:
+	case s.manifest == nil || lastNr > s.latestSeqNr:
 		return true, nil // New complete number
+	case lastNr < s.latestSeqNr:
+		log.Warn("Complete sequence numbers are lower than in the published MPD", "nr", lastNr, "latestNr", s.latestSeqNr)
+		return false, nil
 	case lastNr == s.latestSeqNr && firstNr != s.oldestSeqNr:
 		// No new complete number, but the oldest numbers in the MPD have left the buffer of this track
 		// and their segments will be removed. Then the MPD must be regenerated as well.
@@ -215,7 +218,7 @@ func (sg *segmentTimelineGenerator) generateSegmentTimelineNrMPD(log *slog.Logge
 	if !ok {
 		return fmt.Errorf("no sequence number with segments from all %d tracks", sg._nrTracks)
 	}
-	if sg._published && lastNr < sg.latestSeqNr {
+	if sg.manifest != nil && lastNr < sg.latestSeqNr {
 		return fmt.Errorf("new latest seqNr %d is smaller than latestSeqNr %d", lastNr, sg.latestSeqNr)
 	}
 	ch.mu.RLock()
@@ -230,7 +233,6 @@ func (sg *segmentTimelineGenerator) generateSegmentTimelineNrMPD(log *slog.Logge
 	}
 	sg.latestSeqNr = lastNr
 	sg.oldestSeqNr = firstNr
-	sg._published = true
 	sg.manifest = manifest
 	err := sg.writeSegmentTimelineNrMPD(log)
 	if err != nil {
